@@ -5,7 +5,7 @@
 From GF Require Import Base Alphabet SymbolsDef FastaModel CodonModel.
 Open Scope nat_scope.
 
-Record feat := { f_name : list N; f_rev : bool; f_segs : list (nat * nat); f_cstart : nat }.  (* segments ascending; codon_start 1..3 *)
+Record feat := { f_name : list N; f_rev : bool; f_segs : list (nat * nat); f_cstart : nat }.  (* segments in the order the annotation lists them: ascending, or not - a gene that spans the origin of a circular genome is join(40..50,1..10); codon_start 1..3 *)
 
 Definition range (ab : nat * nat) : list nat := seq (fst ab) (S (snd ab) - fst ab).       (* a..b ascending *)
 Definition rrange (ab : nat * nat) : list nat := rev (range ab).                            (* b..a descending *)
@@ -17,7 +17,7 @@ Definition gb_positions_form0 (f : feat) : list nat :=
   skipn (f_cstart f - 1) (if f_rev f then rev (concat (map range (f_segs f))) else concat (map range (f_segs f))).
 Definition gb_positions_form1 (f : feat) : list nat :=
   skipn (f_cstart f - 1) (if f_rev f then concat (map rrange (rev (f_segs f))) else concat (map range (f_segs f))).
-(* GFF3: one row per segment in file (ascending) order; forward: rows first to last, each ascending; reverse: rows
+(* GFF3: one row per segment in file (= listed) order; forward: rows first to last, each ascending; reverse: rows
    last to first, each descending; the phase of the first row in translation order (= codon_start-1) is dropped *)
 Definition gff_positions (f : feat) : list nat :=
   skipn (f_cstart f - 1) (if f_rev f then concat (map rrange (rev (f_segs f))) else concat (map range (f_segs f))).
@@ -68,4 +68,18 @@ Proof.
   cbn [map combine fst snd]. f_equal.
   - apply regions_gb_eq_gff. apply (H 0). cbn. lia.
   - apply IH; [cbn in Hl1; lia|cbn in Hl2; lia|]. intros k Hk. apply (H (S k)). cbn. lia.
+Qed.
+
+(* ---- the strand on the GenBank path.  Location.IsReverse answers "does the location contain complement(", which on the AST
+   is f_rev (all three renderings of a reverse feature contain it, no rendering of a forward one does).  Before repair D14 it
+   compared the first and the last position of the list; that rule is wrong for a join listed in descending order, in both
+   directions: *)
+Definition old_is_reverse (ps : list nat) : bool := Nat.ltb (last ps 0) (hd 0 ps).
+Lemma old_strand_rule_refuted :
+  (exists f, f_rev f = false /\ old_is_reverse (gb_positions_form0 f) = true) /\
+  (exists f, f_rev f = true /\ old_is_reverse (gb_positions_form0 f) = false).
+Proof.
+  split.
+  - exists {| f_name := []; f_rev := false; f_segs := [(40, 51); (1, 9)]; f_cstart := 1 |}. split; reflexivity.
+  - exists {| f_name := []; f_rev := true; f_segs := [(38, 41); (25, 26); (28, 33)]; f_cstart := 1 |}. split; reflexivity.
 Qed.
